@@ -235,21 +235,6 @@ search_contract(
                    decreases="self.budget.evaluations_budget - self.tracker.evaluator.count")},
 )
 
-# ---- hill climbing: same loop contract, batch = neighbourhood size ------------------------------------------------------
-HC_BATCH = "self.number_of_mutations"
-search_contract(
-    "HC", HCF, HC_BATCH,
-    extra_req={"representation_mutates": "isinstance(self.representation, RepresentationWithMutation)",
-               "some_neighbours": "self.number_of_mutations >= 1"},
-    loops={0: Loop(invariants={**{k: v.format(batch=HC_BATCH) for k, v in LOOP_INV.items()},
-                               "neighbourhood_size_unchanged": "self.number_of_mutations == old(self.number_of_mutations)",
-                               "first_individual_kept": "implies(current_ind is not None, ind is not None)"},
-                   modifies=LOOP_MOD,
-                   decreases="self.budget.evaluations_budget - self.tracker.evaluator.count")},
-    locals_={"current_ind": "Individual?", "ind": "Individual?"},
-    ghost_entry="ind = None",  # `ind` is unbound until the first iteration: modelled as None, so reading it is a not-None obligation
-)
-
 # ---- multi-objective tracker: every member of the reported front attains the best aggregate seen so far (C12) ----------
 TM_OK = {
     "hist_evaluated": "forall(0, len(self.hist), lambda h: self.problem in self.hist[h].fitness_store)",
